@@ -185,7 +185,8 @@ def configs(ctx):
             out.append((('hof', k), [dict(vals=v, gclass=0, gen=0) for v in alpha]))
     for sim in ('uid', 'same'):
         for cap in (0, 1, 2, 3):
-            for nobj in (2, 3):
+            # quick: one objective count per capacity (alternating), thorough: both
+            for nobj in ctx.pick((2 + (cap + (sim == 'same')) % 2,), (2, 3)):
                 alpha = PAR[nobj][(s + cap) % len(PAR[nobj])]
                 if sim == 'same':
                     # twins: same vector, same generation, same graph class but another uid
@@ -388,7 +389,7 @@ def run(ctx):
     ctx.rule = ('a case is a whole update sequence on a real HallOfFame / ParetoFront / GenerationKeeper; exhaustive: every '
                 'sequence (up to renaming of individuals) of U updates with populations of <= P individuals, <= N distinct '
                 'individuals over a 3-letter dyadic fitness alphabet (repeats, ties, empty populations), for 12 hall-of-fame, '
-                '16 Pareto-front and 10 keeper configurations (k 1..4, capacity 0..3, 1..3 objectives); random: sequences of '
+                '8 (thorough 16) Pareto-front and 10 keeper configurations (k 1..4, capacity 0..3, 1..3 objectives); random: sequences of '
                 '<= 30 updates over pools of <= 14 individuals; evaluations = updates compared; distinct = distinct sequence; '
                 'non-trivial = >= 2 individuals shown and a tie, a repeat, more individuals than the capacity or >= 3 individuals')
     ctx.trusted_extra = [
